@@ -121,6 +121,7 @@ type PES struct {
 	PCRExt           uint16
 	Payload          []byte // PES_packet_data_bytes
 	PacketCount      int    // transport packets it spans
+	PacketIndexes    []int  // their indexes in Result.Packets
 	FirstPacket      int    // index of the transport packet with the PUSI
 	PacketLength     int    // PES_packet_length as coded (0 = unbounded)
 	HeaderDataLength int
@@ -340,13 +341,13 @@ func DemuxOpt(b []byte, o Options) (*Result, error) {
 	// elementary streams
 	type open struct {
 		raw      []byte
+		idx      []int
 		first    int
 		n        int
 		stuffed  int
 		af       int
 		rai      bool
 		pcr      *PCR
-		lastSeen int
 	}
 	cur := map[uint16]*open{}
 	finish := func(pid uint16, op *open, tail bool) error {
@@ -355,7 +356,7 @@ func DemuxOpt(b []byte, o Options) (*Result, error) {
 			return err
 		}
 		pes.PacketCount, pes.FirstPacket, pes.RandomAccess = op.n, op.first, op.rai
-		pes.StuffedPackets, pes.AFPackets = op.stuffed, op.af
+		pes.StuffedPackets, pes.AFPackets, pes.PacketIndexes = op.stuffed, op.af, op.idx
 		if op.pcr != nil {
 			v := op.pcr.Base
 			pes.PCR, pes.PCRExt = &v, op.pcr.Ext
@@ -400,6 +401,7 @@ func DemuxOpt(b []byte, o Options) (*Result, error) {
 			return r, perr(i, "PID 0x%04x: payload before the first payload_unit_start_indicator", p.PID)
 		}
 		op.raw = append(op.raw, p.Payload...)
+		op.idx = append(op.idx, i)
 		op.n++
 		if p.Stuffing > 0 {
 			op.stuffed++
@@ -619,7 +621,7 @@ func (a *sectionAssembler) push(p *Packet) ([]section, error) {
 			if len(a.buf) < 3 {
 				return nil
 			}
-			a.need = 3 + (int(a.buf[1]&0x0f)<<8 | int(a.buf[2])) - 3
+			a.need = int(a.buf[1]&0x0f)<<8 | int(a.buf[2]) // section_length bytes follow the 3-byte header
 		}
 		n := a.need
 		if n > len(d) {
